@@ -314,7 +314,11 @@ int main(int argc, char** argv)
     if (irc != Device_Ok) { printf("{\"violations\":[{\"clause\":\"init-failed\",\"detail\":\"device_manager_init failed although absent driver libraries must be tolerated\",\"spec\":\"init\",\"count\":1}],\"samples\":[]}\n"); return 1; }
     uint32_t count = device_manager_count(&dm);
     unsigned long long n_get = 0, n_open = 0;
-    for (uint32_t i = 0; i < count + 3; ++i) {
+    // indices: 0..count+2, and values whose low 8 / 16 bits alone would be in range
+    std::vector<uint32_t> indices;
+    for (uint32_t i = 0; i < count + 3; ++i) indices.push_back(i);
+    for (uint32_t base : { 255u, 256u, 512u, 65535u, 65536u, 0x10000u + 256u, 0x7fffffffu, 0x80000000u, 0xffffff00u, 0xffffffffu }) for (uint32_t k = 0; k < 3; ++k) if (base + k >= count + 3) indices.push_back(base + k);
+    for (uint32_t i : indices) {
         DeviceIdentifier id; memset(&id, 0, sizeof id);
         DeviceStatusCode rc;
         try { rc = device_manager_get(&id, &dm, i); } catch (...) { viol("exception-escaped", "device_manager_get let an exception escape", "index=" + std::to_string(i)); continue; }
